@@ -110,7 +110,7 @@ fn entries<'a>(bp: &'a Blueprint, v: &VDef) -> Vec<&'a aiken_project::blueprint:
 }
 
 /// invariants of one state; `applied` = the parameter values applied so far
-fn check_state(run: &Run, initial_text: &str, json_text: &str, v: &VDef, applied: &[RData], case: &J, counters: &mut (u64, u64)) {
+fn check_state(run: &Run, initial_text: &str, json_text: &str, v: &VDef, applied: &[RData], case: &J, counters: &mut (u64, u64), lang_tag: u8) {
     // frame condition: applying parameters to one validator leaves every entry of every other
     // validator exactly as `aiken build` wrote it
     if !applied.is_empty() {
@@ -135,6 +135,12 @@ fn check_state(run: &Run, initial_text: &str, json_text: &str, v: &VDef, applied
         }
         if t0["definitions"] != t1["definitions"] || t0["preamble"] != t1["preamble"] {
             run.violation(Violation { signature: "application-changes-definitions-or-preamble".into(), what: format!("applying parameters to {}.{} changed the blueprint's definitions or preamble", v.module, v.name), case: case.clone() });
+        }
+    }
+    if let Ok(t1) = serde_json::from_str::<J>(json_text) {
+        let want = format!("v{lang_tag}");
+        if t1["preamble"]["plutusVersion"].as_str() != Some(want.as_str()) {
+            run.violation(Violation { signature: "plutus-version-changes".into(), what: format!("the preamble said Plutus {want} before the application and says {} after it", t1["preamble"]["plutusVersion"]), case: case.clone() });
         }
     }
     let bp = match parse_blueprint(json_text) {
@@ -167,12 +173,12 @@ fn check_state(run: &Run, initial_text: &str, json_text: &str, v: &VDef, applied
         // published hash = blake2b-224(0x03 || compiledCode)
         if let Some(j) = txt["validators"].as_array().and_then(|a| a.iter().find(|x| x["title"] == e.title.as_str())) {
             let code = hex::decode(j["compiledCode"].as_str().unwrap_or("")).unwrap_or_default();
-            let mut pre = vec![3u8];
+            let mut pre = vec![lang_tag];
             pre.extend(&code);
             let h = hex::encode(blake2b_224(&pre));
             counters.1 += 1;
             if j["hash"].as_str() != Some(h.as_str()) {
-                run.violation(Violation { signature: "hash-is-not-the-hash-of-the-code".into(), what: format!("{}: published hash {} but blake2b-224(03 || compiledCode) = {h}", e.title, j["hash"]), case: case.clone() });
+                run.violation(Violation { signature: "hash-is-not-the-hash-of-the-code".into(), what: format!("{}: published hash {} but blake2b-224({:02x} || compiledCode) = {h} (the preamble says Plutus v{lang_tag})", e.title, j["hash"], lang_tag), case: case.clone() });
             }
         }
     }
@@ -221,10 +227,31 @@ fn check_state(run: &Run, initial_text: &str, json_text: &str, v: &VDef, applied
     }
 }
 
+/// The same blueprint as an older release would have written it for Plutus V1 / V2: the
+/// preamble's version and every hash (language tag || code) are rewritten; the reader tells the
+/// language of each program from its hash.
+fn relabel(initial: &str, lang_tag: u8) -> String {
+    let mut t: J = serde_json::from_str(initial).unwrap();
+    t["preamble"]["plutusVersion"] = json!(format!("v{lang_tag}"));
+    if let Some(vs) = t["validators"].as_array_mut() {
+        for v in vs {
+            let code = hex::decode(v["compiledCode"].as_str().unwrap_or("")).unwrap_or_default();
+            let mut pre = vec![lang_tag];
+            pre.extend(&code);
+            v["hash"] = json!(hex::encode(blake2b_224(&pre)));
+        }
+    }
+    // through the real reader and writer once, so that the text is what the tool itself writes
+    match parse_blueprint(&t.to_string()) {
+        Ok(bp) => serde_json::to_string_pretty(&bp).unwrap(),
+        Err(_) => t.to_string(),
+    }
+}
+
 pub fn run(tier: Tier, replay: Option<String>) -> i32 {
     let _ = replay; // a replay re-runs the (small) search and reports the same signatures
     let mut run = Run::new("C18", tier);
-    let initial = match build_initial() {
+    let initial_v3 = match build_initial() {
         Ok(j) => j,
         Err(e) => {
             run.machinery_error(format!("the purpose-built project does not build: {e}"));
@@ -236,7 +263,13 @@ pub fn run(tier: Tier, replay: Option<String>) -> i32 {
     let (mut states, mut transitions, mut rejected_ops, mut max_depth) = (0u64, 0u64, 0u64, 0usize);
     let mut counters = (0u64, 0u64);
     let mut outcomes: HashSet<String> = HashSet::new();
+    // Plutus V3 as built; the first validators again under a V2 and a V1 label
+    for lang_tag in [3u8, 2, 1] {
+    let initial = if lang_tag == 3 { initial_v3.clone() } else { relabel(&initial_v3, lang_tag) };
     for (vi, v) in validators().iter().enumerate() {
+        if lang_tag != 3 && vi >= (if tier == Tier::Quick { 3 } else { 14 }) {
+            continue;
+        }
         // BFS over application histories
         let mut frontier: VecDeque<(Vec<RData>, String)> = VecDeque::new();
         let mut seen: HashSet<String> = HashSet::new();
@@ -245,8 +278,8 @@ pub fn run(tier: Tier, replay: Option<String>) -> i32 {
         while let Some((hist, text)) = frontier.pop_front() {
             states += 1;
             max_depth = max_depth.max(hist.len());
-            let case = json!({"engine":"c18","validator":format!("{}.{}", v.module, v.name),"validator_index":vi,"history":hist.iter().map(crate::datau_json).collect::<Vec<_>>()});
-            check_state(&run, &initial, &text, v, &hist, &case, &mut counters);
+            let case = json!({"engine":"c18","plutus_version":lang_tag,"validator":format!("{}.{}", v.module, v.name),"validator_index":vi,"history":hist.iter().map(crate::datau_json).collect::<Vec<_>>()});
+            check_state(&run, &initial, &text, v, &hist, &case, &mut counters, lang_tag);
             if hist.len() == v.params.len() {
                 // complete: compare with applying all parameters at once to the initial script
                 let bp0 = parse_blueprint(&initial).unwrap();
@@ -316,7 +349,10 @@ pub fn run(tier: Tier, replay: Option<String>) -> i32 {
                 }
             }
         }
-        run.sample(json!({"validator": format!("{}.{}", v.module, v.name), "parameters": v.params.iter().map(show_ty).collect::<Vec<_>>()}));
+        if lang_tag == 3 {
+            run.sample(json!({"validator": format!("{}.{}", v.module, v.name), "parameters": v.params.iter().map(show_ty).collect::<Vec<_>>()}));
+        }
+    }
     }
     run.set("validators", validators().len() as u64);
     run.set("states", states);
@@ -328,8 +364,8 @@ pub fn run(tier: Tier, replay: Option<String>) -> i32 {
     run.set("traces_validated_against_impl", states);
     run.set("evaluations", counters.0 + transitions);
     run.set("distinct_nontrivial", outcomes.len() as u64);
-    run.set("rule", "state = blueprint JSON text after a history of parameter applications (re-parsed at every step); operations = apply_parameter with conforming values of the next parameter's type, the mutation ball of one of them, and values of the other parameters' types; in every state: JSON round trip, remaining parameters = tail, hash = independent blake2b-224 of 03||compiledCode, sibling handlers share the program, every entry of every other validator (incl. ones whose names extend or are extended by this one's) and the definitions are untouched, and for every completion with remaining conforming values both handlers accept exactly the redeemer built from all parameter values; complete states equal apply_params_to_script with all parameters at once; distinct_nontrivial = distinct fully applied blueprints");
-    run.assume("Plutus V3 only (the project configuration accepts no other version); script contexts are minimal hand-built Data values, sufficient because the handlers ignore everything but the redeemer and the purpose");
+    run.set("rule", "state = blueprint JSON text after a history of parameter applications (re-parsed at every step); operations = apply_parameter with conforming values of the next parameter's type, the mutation ball of one of them, and values of the other parameters' types; in every state: JSON round trip, remaining parameters = tail, hash = independent blake2b-224 of (language tag of the preamble)||compiledCode, the preamble's version is unchanged, sibling handlers share the program, every entry of every other validator (incl. ones whose names extend or are extended by this one's) and the definitions are untouched, and for every completion with remaining conforming values both handlers accept exactly the redeemer built from all parameter values; complete states equal apply_params_to_script with all parameters at once; distinct_nontrivial = distinct fully applied blueprints");
+    run.assume("the project configuration builds Plutus V3 only; Plutus V1/V2 blueprints are the V3 build relabelled (preamble version and hashes rewritten), which is how the reader recognises a program's language; script contexts are minimal hand-built Data values, sufficient because the handlers ignore everything but the redeemer and the purpose");
     if states < 20 || rejected_ops == 0 || counters.0 < 100 {
         run.machinery_error("vacuous: too few states / no rejected application / too few evaluations");
     }
